@@ -51,7 +51,26 @@ type Conn struct {
 	ClosedAt   time.Time
 	PSyncAt    time.Time
 	Replica    bool          // the connection sent SYNC/PSYNC
+	Marks      []SentMark    // cumulative stream bytes after each stream send, with the time the write returned
 	Done       chan struct{} // closed when the plan has been played
+}
+
+type SentMark struct {
+	At    time.Time
+	Total int64
+}
+
+// SentBy returns the number of replication-stream bytes whose write had returned by t.
+func (c *Conn) SentBy(t time.Time) int64 {
+	c.mu.Lock()
+	defer c.mu.Unlock()
+	var n int64
+	for _, m := range c.Marks {
+		if !m.At.After(t) {
+			n = m.Total
+		}
+	}
+	return n
 }
 
 func (c *Conn) StreamSent() int64 { c.mu.Lock(); defer c.mu.Unlock(); return c.streamSent }
@@ -347,6 +366,7 @@ func (s *Source) serve(c *Conn) {
 			if st.Stream {
 				c.mu.Lock()
 				c.streamSent += int64(len(st.Send))
+				c.Marks = append(c.Marks, SentMark{time.Now(), c.streamSent})
 				c.mu.Unlock()
 			}
 		}
